@@ -249,3 +249,8 @@ MUTANTS = [
          new="      elif stage == Stage.FIRST_PASS:\n        suffix = FIRST_PASS_SUFFIX\n        module_to_output[module] = default_output\n        continue\n"),
     dict(name='skip_stale_map_ok', file=RUN_PY, expect=0, old="      if m in module_to_imports_map:\n      imports_map.update", new="      if m in module_to_imports_map:\n      imports_map.update"),
 ]
+
+
+def extra_obligations(repo):
+  from engine import frames
+  return frames.equality_frames('C19', repo, [('pytype/module_utils.py', 'Module', 'dataclass')])
